@@ -340,6 +340,7 @@ typedef struct enc_out {
 
 static varintFORMeta g_formeta;
 static varintPFORMeta g_pformeta;
+static varintAdaptiveMeta g_adaptmeta; /* as the last adaptive encode left it */
 static varintDict *g_dict;
 
 static size_t bound_of(int codec, long param, const uint64_t *xs,
@@ -589,6 +590,7 @@ static void encode_into(int codec, long param, uint8_t *dst, const uint64_t *xs,
         o->m_count = (long long)m.originalCount;
         o->m_size = (long long)m.encodedSize;
         o->m_type = m.encodingType;
+        g_adaptmeta = m;
         break;
     }
     }
@@ -715,6 +717,9 @@ static void run_decode(int codec, long param, const char *api, const gbuf *src,
     case C_ADAPTIVE: {
         varintAdaptiveMeta m;
         memset(&m, 0, sizeof(m));
+        if (!strcmp(api, "DecodeMeta")) {
+            m = g_adaptmeta; /* the struct the encoder filled, handed back: an output argument all the same */
+        }
         f = GUARDED(ret = varintAdaptiveDecode(s, o64, cap, &m));
         aux = f ? -1 : (long long)m.encodingType;
         break;
@@ -759,6 +764,8 @@ static const char *full_readers(int codec, int k) {
     case C_DICT:
     case C_DICT_WITH:
         return k == 0 ? "DecodeInto" : k == 1 ? "Decode" : NULL;
+    case C_ADAPTIVE:
+        return k == 0 ? "Decode" : k == 1 ? "DecodeMeta" : NULL;
     default:
         return k == 0 ? "Decode" : NULL;
     }
@@ -1142,6 +1149,7 @@ static long long clipf(long long v);
 /* one encode of xs and everything the tier asks for about its output */
 static void scenario_body(int codec, long param, size_t n, const char *shape, long sparam, uint64_t *xs,
                           uint32_t *x32) {
+    g_guard_secs = n > 100000 ? 90 : GUARD_SECS; /* CPU seconds one call may burn before it counts as a hang */
     int exact = 0;
     size_t bound = 0;
     int bf = GUARDED(bound = bound_of(codec, param, xs, x32, n, &exact));
@@ -1273,8 +1281,45 @@ static void scenario_body(int codec, long param, size_t n, const char *shape, lo
 }
 
 /* ---------------------------------------------------------------- scenario */
+/* "all inputs": one run longer than 2^32 elements (thorough tier).  The 32 GiB
+ * of zeros are a read-only anonymous mapping (the kernel's zero page, no
+ * memory); the destination has exactly the size the exact predictor
+ * varintRLESize() promises and ends at an inaccessible page. */
+#include <sys/mman.h>
+static void giant_run(int codec) {
+    size_t n = ((size_t)1 << 32) + 16;
+    uint64_t *xs = mmap(NULL, n * 8, PROT_READ, MAP_PRIVATE | MAP_ANONYMOUS | MAP_NORESERVE, -1, 0);
+    if (xs == MAP_FAILED) {
+        return; /* the host refuses the address space: nothing observed */
+    }
+    size_t bound = 0, w = 0;
+    g_guard_secs = 1200;
+    int bf = GUARDED(bound = varintRLESize(xs, n));
+    if (!bf && bound > 0 && bound < 4096) {
+        gbuf tight = gb_alloc(bound);
+        int tf = GUARDED(w = varintRLEEncode(tight.p, xs, n, NULL));
+        ev_begin("EncTight");
+        ev_int("sc", (long long)scen_id);
+        ev_str("codec", CODEC[codec]);
+        ev_int("bound", (long long)bound);
+        ev_int("fault", tf);
+        ev_int("foff", tf == 1 ? gb_fault_off(&tight) : 0);
+        ev_int("written", tf ? -1 : (long long)w);
+        ev_end();
+        gb_free(&tight);
+    }
+    g_guard_secs = GUARD_SECS;
+    munmap(xs, n * 8);
+}
+
 static void scenario(int codec, long param, size_t n, const char *shape,
                      long sparam) {
+    if (!strcmp(shape, "giantrun")) {
+        if ((what & 2) && codec == C_RLE) {
+            giant_run(codec);
+        }
+        return;
+    }
     uint64_t *xs = malloc((n + 1) * sizeof(*xs));
     uint32_t *x32 = malloc((n + 1) * sizeof(*x32));
     gen_shape(shape, n, sparam, xs);
@@ -1291,6 +1336,21 @@ static void scenario(int codec, long param, size_t n, const char *shape,
     }
     if (codec == C_DICT_WITH) {
         g_dict = varintDictCreate();
+        /* The dictionary object has a history: it held another, differently
+         * sized dictionary before (a long-lived object is rebuilt as the data
+         * changes).  Alternately a larger one (300 entries of 9-byte values: a
+         * wider index class than most scenarios need) and a smaller one (3). */
+        if (g_dict) {
+            uint64_t decoy[300];
+            size_t dn = (scen_id & 1) ? 3 : 300;
+            for (size_t i = 0; i < dn; i++) {
+                decoy[i] = ~(uint64_t)0 - 977 * i;
+            }
+            if (varintDictBuild(g_dict, decoy, dn) != 0) {
+                fprintf(stderr, "dict build failed\n");
+                exit(2);
+            }
+        }
         if (!g_dict || varintDictBuild(g_dict, xs, n) != 0) {
             fprintf(stderr, "dict build failed\n");
             exit(2);
